@@ -68,6 +68,13 @@ def main(argv=None) -> int:
         print(f'ANALYSIS-ERROR property={pid} {res["error"]}')
         return 2
     ctx = res['ctx']
+    if res.get('floor_error'):
+        # an instance floor is not met: analysis error, unless a new violation is being reported anyway
+        _k, _new = core.classify(pid, ctx)
+        if not _new:
+            core.write_evidence(pid, args.tier, seed, level, None, time.time() - t0, error=res['floor_error'])
+            print(f'ANALYSIS-ERROR property={pid} {res["floor_error"]}')
+            return 2
     extra = {}
     if hasattr(pack, 'extra_coverage'):
         extra.update(pack.extra_coverage(ctx))
@@ -108,6 +115,11 @@ def main(argv=None) -> int:
 
 
 if __name__ == '__main__':
+    import signal
+    try:
+        signal.signal(signal.SIGPIPE, signal.SIG_DFL)
+    except Exception:
+        pass
     try:
         code = main()
     except AnalysisError as e:
